@@ -385,6 +385,41 @@ def check_plane(fx, R, cq, cname, f):
                 R.undecided('N8', inst + ':shortcut', 'returns before the eigen-decomposition when `%s`; whether that condition is exact for the inputs of the quantifier is not decided' % ctext)
         if not exits:
             R.holds('N8', inst + ':shortcut', 'no return before eigenSolver_.compute(...)', loc, 'E-STATE')
+    # ---- N9: nothing replaces the eigenvectors after the decomposition inside the quantifier (relative eigen-gap above 1e-6) ---------------------
+    if dec_i is not None:
+        S_ = 'float' if ('<float' in cq or 'float,' in cq or 'float>' in cq) else 'double'
+        for x_ in top[dec_i + 1:]:
+            if x_.get('k') != 'If':
+                continue
+            stores_ = [deep_unwrap(sx(y_['e'])) for y_ in walk(x_.get('t')) if y_.get('k') == 'Expr']
+            hit_ = [s_ for s_ in stores_ if isinstance(s_, tuple) and s_[0] == '=' and 'eigenVectors_' in str(s_[1])]
+            if not hit_:
+                continue
+            cnd_ = deep_unwrap(sx(x_['c']))
+            Tval = None
+            if isinstance(cnd_, tuple) and cnd_[0] in ('<=', '<') and isinstance(cnd_[2], tuple) and cnd_[2][0] == '*' and 'eigenValues_' in str(cnd_[1]):
+                env_ = {}
+                stp_ = mini.Step(deep_unwrap)
+                try:
+                    for y_ in top[:top.index(x_)]:
+                        if y_.get('k') == 'Decl' and all((v_.get('t') or {}).get('c') in ('fp', 'int') and v_.get('init') is not None for v_ in y_['vars']):
+                            try:
+                                stp_.run(y_, env_)
+                            except mini.Unsupported:
+                                pass
+                    for side in cnd_[2][1:]:
+                        if 'eigenValues_' not in str(side):
+                            Tval = float(stp_.ev(side, dict(env_)))
+                except (mini.Unsupported, TypeError, ValueError):
+                    Tval = None
+            if Tval is None:
+                R.undecided('N9', inst + ':replaced-eigenvector', 'after the decomposition the eigenvectors are overwritten when `%s`; the threshold is not evaluable' % pp(x_['c'])[:120])
+            elif Tval > 1e-6:
+                R.violated('N9', short_fn(cq.split('<')[0]) + '::planeEstimation_:replaced-eigenvector', 'after the decomposition the first eigenvector - the normal - is overwritten (%s) when `%s`; for %s the factor is '
+                           '%.3g, a relative eigen-gap ABOVE the 1e-6 from which the quantifier counts a neighbourhood as having a distinct smallest eigenvalue: for gaps in ]1e-6, %.3g] the reported normal is not the '
+                           'direction of least variance of the neighbours [%s]' % (str(hit_[0][2])[:80], pp(x_['c'])[:120], S_, Tval, Tval, cname), fx.rel(x_['loc']), 'E-INT')
+            else:
+                R.holds('N9', inst + ':replaced-eigenvector', 'overwritten only for relative gaps below %.3g, outside the quantifier' % Tval, fx.rel(x_['loc']), 'E-INT')
     direct = [s for s in st if s[0] == 'expr' and isinstance(s[1], tuple) and s[1][:2] == ('.computeDirect', 'this.eigenSolver_')]
     if direct:
         R.violated('N3', short_fn(cq.split('<')[0]) + '::planeEstimation_:closed-form-solver', 'the eigen-decomposition uses SelfAdjointEigenSolver::computeDirect, Eigen\'s closed-form (trigonometric) solver for 2x2 / 3x3 '
